@@ -51,6 +51,9 @@ type printerEvents struct {
 	root   []*pev
 	issues []string
 	decl   *ast.FuncDecl
+	// predGuards: parentheses guarded by a pure predicate of package ast over a child (child field -> predicate); what
+	// the predicate must answer is the business of R3.6
+	predGuards map[string]*types.Func
 }
 
 func (c *Ctx) printerEventsOf(nt *types.Named) *printerEvents {
@@ -159,6 +162,8 @@ func (x *pextract) block(stmts []ast.Stmt) []*pev {
 				if id, ok := s.Lhs[0].(*ast.Ident); ok {
 					if f := x.guardField(s.Rhs[0]); f != "" {
 						x.locals[x.info.ObjectOf(id)] = "paren:" + f
+					} else if f := x.predGuard(s.Rhs[0]); f != "" {
+						x.locals[x.info.ObjectOf(id)] = "paren:" + f
 					}
 					continue
 				}
@@ -256,7 +261,41 @@ func (x *pextract) guardField(e ast.Expr) string {
 	return found
 }
 
+// predGuard: e is pred(x.<child>) — a call of a package-level function of package ast that takes one node-typed
+// argument, a child of the node, and returns a bool (it is not handed the writer, so it cannot write). Parentheses under
+// such a guard are transparent to the token comparison like precedence parentheses; R3.6 judges the predicate.
+func (x *pextract) predGuard(e ast.Expr) string {
+	call, ok := ast.Unparen(e).(*ast.CallExpr)
+	if !ok || len(call.Args) != 1 {
+		return ""
+	}
+	id, ok := call.Fun.(*ast.Ident)
+	if !ok {
+		return ""
+	}
+	fn, ok := x.info.Uses[id].(*types.Func)
+	if !ok || fn.Pkg() == nil || fn.Pkg() != x.c.Pkg("ast") {
+		return ""
+	}
+	sig := fn.Type().(*types.Signature)
+	if sig.Recv() != nil || sig.Params().Len() != 1 || sig.Results().Len() != 1 || !types.Identical(sig.Results().At(0).Type(), types.Typ[types.Bool]) || !isNodeIface(sig.Params().At(0).Type()) {
+		return ""
+	}
+	fp, ok := x.fieldPath(call.Args[0])
+	if !ok || fp == "" {
+		return ""
+	}
+	if x.pe.predGuards == nil {
+		x.pe.predGuards = map[string]*types.Func{}
+	}
+	x.pe.predGuards[fp] = fn
+	return fp
+}
+
 func (x *pextract) cond(e ast.Expr) (string, bool) {
+	if fp := x.predGuard(e); fp != "" {
+		return "paren:" + fp, false
+	}
 	switch v := e.(type) {
 	case *ast.ParenExpr:
 		return x.cond(v.X)
